@@ -463,3 +463,36 @@ MUTANTS += [
     {"id": "C12-capacity-from-dimensions-cubed", "prop": "C12", "expect": "TOTAL",
      "edits": [(I, _NEWBUF, "        let mut sixel_image = Vec::with_capacity(qimg.width() * qimg.height() * qimg.width() * 8);\n")]},
 ]
+
+# ---- refactoring shapes of seeded/benign/C12-P: the 0-255 -> 0-100 conversion applied through `to_rgb().map(f)` / a helper ------------------
+_SIX_IMPL = "impl ImageHandler for SixelImageHandler {\n"
+_CH3 = ("            let red = (red as f32 / 2.55).round() as u8;\n"
+        "            let green = (green as f32 / 2.55).round() as u8;\n"
+        "            let blue = (blue as f32 / 2.55).round() as u8;\n")
+_TO_RGB3 = "            let [red, green, blue] = color.to_rgb();\n" + _CH3
+_PCT = lambda body: "fn sixel_channel_percent(channel: u8) -> u8 {\n    " + body + "\n}\n\n"
+
+MUTANTS += [
+    {"id": "C12-benign-channel-scale-map-fn-item", "prop": "C12", "benign": True,
+     "edits": [(I, _SIX_IMPL, _PCT("(channel as f32 / 2.55).round() as u8") + _SIX_IMPL),
+               (I, _TO_RGB3, "            let [red, green, blue] = color.to_rgb().map(sixel_channel_percent);\n")]},
+    {"id": "C12-benign-channel-scale-map-closure", "prop": "C12", "benign": True,
+     "edits": [(I, _TO_RGB3, "            let [red, green, blue] = color.to_rgb().map(|c| (f32::from(c) / 2.55).round() as u8);\n")]},
+    {"id": "C12-benign-channel-scale-helper-called-thrice", "prop": "C12", "benign": True,
+     "edits": [(I, _SIX_IMPL, _PCT("let scaled = channel as f32 / 2.55;\n    scaled.round() as u8") + _SIX_IMPL),
+               (I, _CH3, "            let red = sixel_channel_percent(red);\n            let green = sixel_channel_percent(green);\n            let blue = sixel_channel_percent(blue);\n")]},
+    {"id": "C12-benign-channel-scale-map-indexed", "prop": "C12", "benign": True,
+     "edits": [(I, _SIX_IMPL, _PCT("(channel as f32 / 2.55).round() as u8") + _SIX_IMPL),
+               (I, _TO_RGB3, "            let pct = color.to_rgb().map(sixel_channel_percent);\n            let (red, green, blue) = (pct[0], pct[1], pct[2]);\n")]},
+    {"id": "C12-channel-scale-map-fn-item-no-division", "prop": "C12", "expect": "PALETTE",
+     "edits": [(I, _SIX_IMPL, _PCT("(channel as f32).round() as u8") + _SIX_IMPL),
+               (I, _TO_RGB3, "            let [red, green, blue] = color.to_rgb().map(sixel_channel_percent);\n")]},
+    {"id": "C12-channel-scale-map-closure-wrong-divisor", "prop": "C12", "expect": "PALETTE",
+     "edits": [(I, _TO_RGB3, "            let [red, green, blue] = color.to_rgb().map(|c| (c as f32 / 2.0).round() as u8);\n")]},
+    {"id": "C12-channel-scale-map-then-swapped", "prop": "C12", "expect": "channel-order",
+     "edits": [(I, _SIX_IMPL, _PCT("(channel as f32 / 2.55).round() as u8") + _SIX_IMPL),
+               (I, _TO_RGB3, "            let [green, red, blue] = color.to_rgb().map(sixel_channel_percent);\n")]},
+    {"id": "C12-channel-scale-helper-two-paths", "prop": "C12", "expect": "PALETTE",
+     "edits": [(I, _SIX_IMPL, _PCT("if channel > 200 {\n        return channel;\n    }\n    (channel as f32 / 2.55).round() as u8") + _SIX_IMPL),
+               (I, _TO_RGB3, "            let [red, green, blue] = color.to_rgb().map(sixel_channel_percent);\n")]},
+]
